@@ -62,7 +62,7 @@ class MonitoredReader(io.BytesIO):
         return got
 
 
-def make_fasta(records, eol=b"\n", final_newline=True, desc=False):
+def make_fasta(records, eol=b"\n", final_newline=True, desc=False, blank_between=False):
     """
     records: list of (name, seq bytes, width).  Returns (file bytes, expected
     quintuples {name: (length, offset, rpl, bpl)}).
@@ -83,6 +83,8 @@ def make_fasta(records, eol=b"\n", final_newline=True, desc=False):
             out.write(ln)
             if not (i == last and j == len(lines) - 1 and not final_newline):
                 out.write(eol)
+        if blank_between and i != last:
+            out.write(eol)  # an empty line between two records (common in concatenated files)
         rpl = min(width, len(seq))
         exp[name] = (len(seq), off, rpl, rpl + len(eol))
     return out.getvalue(), exp
